@@ -28,6 +28,22 @@ def proof_part(ctx, extra_obligations=None):
         "theorems": details.get("theorems"),
         "lean": {k: v for k, v in details.items() if k not in ("theorems",)},
     })
+    # supplementary theorems: stricter than the property (they may break on a harmless rewrite); built and audited
+    # separately, reported in the evidence, never a verdict
+    if reg.get("supplementary_modules"):
+        try:
+            sok, slog, sdt = lean.lake_build(targets=tuple(reg["supplementary_modules"]))
+            sax = {}
+            if sok:
+                sax, _raw = lean.print_axioms(ctx.pid + "-supp", reg["supplementary_modules"], reg.get("supplementary_theorems", []))
+            ctx.coverage["supplementary_theorems"] = {
+                "modules": reg["supplementary_modules"], "build_ok": sok, "build_s": round(sdt, 1),
+                "theorems": {t: sax.get(t) for t in reg.get("supplementary_theorems", [])},
+                "note": "stricter than the property; a failure here is reported but is not a verdict"}
+            if not sok:
+                print("NOTE: supplementary theorems of %s do not check on this tree (not a verdict): %s" % (ctx.pid, "; ".join(lean.failed_declarations(slog)) or "build failed"))
+        except Exception as e:  # noqa
+            ctx.coverage["supplementary_theorems"] = {"error": repr(e)[:300]}
     ctx.proof_ok = ok
     ctx.proof_details = details
     return ok, details
